@@ -167,7 +167,8 @@ def member_store_checks(ctx, rule="C07.R4"):
                 pre = [e for e in evs[:first_loop] if e.kind == "CTXSET" and e["ctx"] == nctx and e["value"] == OBJ and e["key"][0] == "eval" and e["key"][1] == N.selfattr("parsebuildfrom")]
                 ctx.ob(rule, fi, bool(pre), "FocusedSeq._build pre-stores obj under parsebuildfrom before the member loop", key="build prestore", node=fi.node)
             for i, e in enumerate(evs):
-                if e.kind == "SUB" and e["m"] == "_build" and not e.raised and e.loops:
+                if e.kind == "SUB" and e["m"] == "_build" and not e.raised and (e.loops or any(x[0] == "elem" for x in N.walk(e["target"]))):
+                    # (a member chosen by a search loop and built after it is still a member: its term is an element of the member table)
                     sc = e["target"]
                     nm = ("attr", sc, "name")
                     rest = [x for x in evs[i + 1:]]
